@@ -439,6 +439,10 @@ def nontrivial(case):
 
 def shrink_candidates(case):
     ops = case["ops"]
+    slots = sorted(set(o["slot"] for o in ops if "slot" in o))
+    if len(slots) > 1:
+        for sl in slots:      # drop a whole recording (its create / fill / save / scribble ops)
+            yield dict(case, ops=[o for o in ops if o.get("slot") != sl])
     for i in range(len(ops) - 1, -1, -1):
         if ops[i]["op"] in ("get", "get_meta", "scribble_fetched", "scribble_saved"):
             yield dict(case, ops=ops[:i] + ops[i + 1:])
